@@ -191,3 +191,24 @@ def bit_function_equal(t, exp, max_bits=10):
         if a != b:
             return (False, {tm.show(k): v for k, v in env.items()})
     return True
+
+
+def int_witness(t, want, inputs, extra=()):
+    """a concrete integer input at which the two (integer / bit) terms, rebuilt by the normalising constructors, fold to different constants:
+    ({input: value}, got, want) or None.  Terms are values derived by the analysis; only constant folding of the term constructors is used."""
+    cands = []
+    for x in inputs:
+        w = x.w
+        vals = [1 << (w - 1), 1, (1 << w) - 1, (1 << (w - 1)) | 1, int('a5' * (w // 8), 16) if w >= 8 else 1, 0x5a % (1 << w), 2, 0]
+        cands.append([v & ((1 << w) - 1) for v in list(vals) + list(extra)])
+    import itertools
+    n = 0
+    for combo in (zip(*cands) if len(inputs) == 1 else itertools.product(*cands)):
+        n += 1
+        if n > 200:
+            break
+        mp = {x: tm.const(x.w, v) for x, v in zip(inputs, combo)}
+        a, b = tm.substitute(t, mp), tm.substitute(want, mp)
+        if a.op == 'const' and b.op == 'const' and a.args[0] != b.args[0]:
+            return {tm.show(x): v for x, v in zip(inputs, combo)}, a.args[0], b.args[0]
+    return None
